@@ -3,16 +3,20 @@ import Sonic.Proofs.DecPlug
 import Sonic.Proofs.MergeShift
 import Sonic.Proofs.NumberPad
 import Sonic.Proofs.NumberAllB
+import Sonic.Proofs.NumberBig
 
 /-!
 # `NumberOK` from the facts proved about the number model
 
 `NumberFacts` bundles what the parser proofs need to know about `Model.Number.parseNumber` (property C04), in the form
 in which it is used here; `numberOK_of_facts` derives the per-input contract `NumberOK bs` (`Proofs/ParseInv.lean`) from
-it for every text whose written exponents are below 100000 (`ExpSmall`; known finding F6 lives outside).
+it for every text whose number tokens have a written exponent below 100000 in magnitude *or* are at most 9600 bytes
+long (`ExpSmall`; known finding F6 needs a longer token: in a short one a larger exponent saturates both `int exp`
+accumulators in `[10000, 99999]`, which still puts the value outside the binary64 range on the correct side).  In
+particular `ExpSmall` holds for every text of at most 9600 bytes (`expSmall_of_short`).
 
 * (a) `correct`: on every buffer, where the reference finds a token `t` that ends inside the input, has a small
-  written exponent and satisfies `nativeGuard` (not followed by `.` after a fraction / by a digit after a lone `0`, when
+  written exponent (or is at most 9600 bytes long) and satisfies `nativeGuard` (not followed by `.` after a fraction / by a digit after a lone `0`, when
   there is no exponent part), `parseNumber` agrees with the reference: kind, value, end index, `infinity`.
 * (b) `malformed`: where the reference finds no token, `parseNumber` reports `kParseErrorInvalidChar`
   (this is `Props/C04.lean`: `C04_scan_grammar`).
@@ -28,16 +32,17 @@ open Sonic.Gen Sonic.Spec Sonic.Spec.Number Sonic.Model.Parse
 open Sonic.Proofs.Dec (nativeGuard nativeGuard_false)
 
 /-- every number token of `bs` — a token that `Spec.Number.scanToken` finds at any index — has a written exponent of
-    absolute value below 100000 (the `int exp` accumulator of `parseNumber` saturates there: known finding F6) -/
+    absolute value below 100000, or is at most 9600 bytes long (the `int exp` accumulators of `parseNumber` and of
+    `SetDecimal` saturate at 100000: known finding F6, which therefore needs a token of more than 9600 bytes) -/
 def ExpSmall (bs : List Nat) : Prop :=
-  ∀ start t, scanToken (bs.drop start) = some t → (expVal t.exp).natAbs < 100000
+  ∀ start t, scanToken (bs.drop start) = some t → (expVal t.exp).natAbs < 100000 ∨ t.len ≤ 9600
 
 /-- decidable form of `ExpSmall` for concrete inputs -/
 def expSmallCheck (bs : List Nat) : Bool :=
   (List.range bs.length).all fun start =>
     match scanToken (bs.drop start) with
     | none => true
-    | some t => decide ((expVal t.exp).natAbs < 100000)
+    | some t => decide ((expVal t.exp).natAbs < 100000) || decide (t.len ≤ 9600)
 
 theorem expSmall_of_check (bs : List Nat) (h : expSmallCheck bs = true) : ExpSmall bs := by
   intro start t ht
@@ -46,7 +51,8 @@ theorem expSmall_of_check (bs : List Nat) (h : expSmallCheck bs = true) : ExpSma
     rw [List.all_eq_true] at h
     have := h start (List.mem_range.mpr hs)
     rw [ht] at this
-    exact of_decide_eq_true this
+    simp only [Bool.or_eq_true, decide_eq_true_eq] at this
+    exact this
   · rw [List.drop_eq_nil_of_le (by omega)] at ht
     have h0 : scanToken [] = none := by decide
     rw [h0] at ht
@@ -55,7 +61,8 @@ theorem expSmall_of_check (bs : List Nat) (h : expSmallCheck bs = true) : ExpSma
 /-- the facts about `parseNumber` that the parser needs (see the header) -/
 structure NumberFacts : Prop where
   correct : ∀ (buf : List Nat) (len start : Nat) (t : Token), scanToken (buf.drop start) = some t →
-    start + t.len ≤ len → (expVal t.exp).natAbs < 100000 → nativeGuard t ((buf.drop start).drop t.len) = true →
+    start + t.len ≤ len → ((expVal t.exp).natAbs < 100000 ∨ t.len ≤ 9600) →
+    nativeGuard t ((buf.drop start).drop t.len) = true →
     NumAgrees start len (scanNumber buf start) (numOut (Sonic.Model.Number.parseNumber buf len start))
   malformed : ∀ (buf : List Nat) (len start : Nat), scanToken (buf.drop start) = none →
     ∃ p, Sonic.Model.Number.parseNumber buf len start = .err Sonic.Model.Number.errInvalidChar p
@@ -90,7 +97,8 @@ theorem parseNumber_padIndep (bs pad pad' buf buf' : List Nat) (start : Nat) (hs
 /-- `NumberFacts` from the two facts that are not yet available as theorems -/
 theorem NumberFacts.of_ac
     (correct : ∀ (buf : List Nat) (len start : Nat) (t : Token), scanToken (buf.drop start) = some t →
-      start + t.len ≤ len → (expVal t.exp).natAbs < 100000 → nativeGuard t ((buf.drop start).drop t.len) = true →
+      start + t.len ≤ len → ((expVal t.exp).natAbs < 100000 ∨ t.len ≤ 9600) →
+    nativeGuard t ((buf.drop start).drop t.len) = true →
       NumAgrees start len (scanNumber buf start) (numOut (Sonic.Model.Number.parseNumber buf len start)))
     (doomed : ∀ (buf : List Nat) (len start : Nat) (t : Token), scanToken (buf.drop start) = some t →
       start + t.len ≤ len → nativeGuard t ((buf.drop start).drop t.len) = false →
@@ -100,7 +108,8 @@ theorem NumberFacts.of_ac
 /-- `NumberFacts` from the three facts (a), (c), (d) -/
 theorem NumberFacts.of_abc
     (correct : ∀ (buf : List Nat) (len start : Nat) (t : Token), scanToken (buf.drop start) = some t →
-      start + t.len ≤ len → (expVal t.exp).natAbs < 100000 → nativeGuard t ((buf.drop start).drop t.len) = true →
+      start + t.len ≤ len → ((expVal t.exp).natAbs < 100000 ∨ t.len ≤ 9600) →
+    nativeGuard t ((buf.drop start).drop t.len) = true →
       NumAgrees start len (scanNumber buf start) (numOut (Sonic.Model.Number.parseNumber buf len start)))
     (doomed : ∀ (buf : List Nat) (len start : Nat) (t : Token), scanToken (buf.drop start) = some t →
       start + t.len ≤ len → nativeGuard t ((buf.drop start).drop t.len) = false →
@@ -126,7 +135,7 @@ theorem scanNumber_padded (bs pad : List Nat) {start : Nat} (hs : start ≤ bs.l
   unfold scanNumber
   rw [scanToken_padded bs pad hs]
 
-/-- **`NumberOK` holds for every text with small written exponents** -/
+/-- **`NumberOK` holds for every text with small written exponents or short number tokens** -/
 theorem numberOK_of_facts (facts : NumberFacts) {bs : List Nat} (hexp : ExpSmall bs) : NumberOK bs := by
   intro start c hs hc hn
   let pad0 : List Nat := List.replicate 61 0
@@ -182,19 +191,28 @@ theorem numberOK_of_facts (facts : NumberFacts) {bs : List Nat} (hexp : ExpSmall
       · exact Or.inl h46
       · exact Or.inr hdig
 
-/-- **the facts hold**: (a) `NumberAll.parseNumber_correct` (= `C04_parseNumber_correct`), (b) `accumulate_spec`,
+/-- **the facts hold**: (a) `NumberAll.parseNumber_correct'` (= `C04_parseNumber_correct'`), (b) `accumulate_spec`,
     (c) `NumberAll.parseNumber_shape` (= `C04_parseNumber_shape`, with `C04_native_never_faults`), (d)
     `NumberPad.parseNumber_sim` -/
 theorem numberFacts : NumberFacts :=
   NumberFacts.of_ac
-    (fun buf len start t ht hl he hg => Sonic.Proofs.NumberAll.parseNumber_correct buf len start t ht hl he hg)
+    (fun buf len start t ht hl he hg => Sonic.Proofs.NumberAll.parseNumber_correct' buf len start t ht hl he hg)
     (fun buf len start t ht _ _ => by
       rcases Sonic.Proofs.NumberAll.parseNumber_shape buf len start t ht with ⟨v, p, h⟩ | h
       · rw [h]; rfl
       · rw [h]; exact Or.inl rfl)
 
-/-- **`NumberOK bs` for every text whose written exponents are below 100000** — no assumption about the number model
-    is left -/
+/-- **`NumberOK bs` for every text whose written exponents are below 100000 or whose number tokens are short** — no
+    assumption about the number model is left -/
 theorem numberOK_of_exp {bs : List Nat} (hexp : ExpSmall bs) : NumberOK bs := numberOK_of_facts numberFacts hexp
+
+/-- **Every text of at most 9600 bytes satisfies `ExpSmall`**, so for such texts the parser theorems hold
+    unconditionally -/
+theorem expSmall_of_short {bs : List Nat} (h : bs.length ≤ 9600) : ExpSmall bs := by
+  intro start t ht
+  right
+  have := Sonic.Proofs.NumberAll.token_len_le _ t ht
+  rw [List.length_drop] at this
+  omega
 
 end Sonic.Proofs.Parse
